@@ -343,7 +343,8 @@ func (j *c06Judge) judgeRtsp(kind string, cons *c06Consumer) {
 			switch es.Spec.ACodec {
 			case "aac":
 				cfg, err := m.AacConfig()
-				if m.Codec != "MPEG4-GENERIC" || err != nil || !bytes.Equal(cfg, es.Asc) || m.Clock != es.AClock {
+				// (a subscriber that joins after the stream changed its AudioSpecificConfig is described the new one)
+				if m.Codec != "MPEG4-GENERIC" || err != nil || !(bytes.Equal(cfg, es.Asc) || (es.Asc2 != nil && bytes.Equal(cfg, es.Asc2))) || m.Clock != es.AClock {
 					j.bad(kind, "sdp-audio", "SDP audio: codec=%s clock=%d (stream %d) config=%x (ASC %x) err=%v", m.Codec, m.Clock, es.AClock, cfg, es.Asc, err)
 					return
 				}
